@@ -177,3 +177,107 @@ def _run_node(program: list[dict], gi: int, n: dict, kwargs: dict, env: Env, res
     if len(douts) == 1:
         return {douts[0]: out}
     return dict(zip(douts, out, strict=True))
+
+
+# ---------------------------------------------------------------- gated acyclic programs (flat)
+
+def _names(decision: Any, node: str) -> bool:
+    from hypergraph import END
+
+    if decision is None or decision is END:
+        return False
+    if isinstance(decision, list):
+        return node in decision
+    return decision == node
+
+
+def eval_gated(program: list[dict], gi: int, provided: dict[str, Any], env: Env) -> RefResult:
+    """Intended semantics of a flat, acyclic, gated graph: gates decide first; a gated node runs iff some
+    controlling gate's decision names it (or a default-open controlling gate can never run);
+    every argument is the selected producer's output, else run-time value / binding / default."""
+    from .build import py_dec
+
+    g = program[gi]
+    specs = list(g["nodes"])
+    bound = {k: py_val(v) for k, v in g.get("bound", [])}
+    producers: dict[str, list[str]] = {}
+    for n in specs:
+        for o in node_outputs(program, n):
+            producers.setdefault(o, []).append(n["name"])
+    controlling: dict[str, list[dict]] = {}
+    for n in specs:
+        if n["kind"] in ("route", "ifelse"):
+            for t in n["targets"]:
+                if t != "__END__":
+                    controlling.setdefault(t, []).append(n)
+    res = RefResult()
+    state: dict[str, Any] = dict(provided)
+    done: set[str] = set()
+    dead: set[str] = set()
+    decisions: dict[str, Any] = {}
+    progress = True
+    while progress and res.error is None:
+        progress = False
+        for n in specs:
+            name = n["name"]
+            if name in done or name in dead:
+                continue
+            gates = controlling.get(name, [])
+            if any(c["name"] not in done and c["name"] not in dead for c in gates):
+                continue                                        # the gate decides first
+            if gates:
+                activated = any(c["name"] in done and _names(decisions[c["name"]], name) for c in gates) or \
+                    any(c["name"] in dead and c.get("defaultOpen", True) for c in gates)
+                if not activated:
+                    dead.add(name)
+                    progress = True
+                    continue
+            waiting = False
+            unsat = False
+            kwargs: dict[str, Any] = {}
+            for cur, orig in node_inputs(program, n):
+                prods = [p for p in producers.get(cur, []) if p != name]
+                if any(p not in done and p not in dead for p in prods) and cur not in provided:
+                    waiting = True
+                    break
+                if cur in state:
+                    kwargs[orig] = state[cur]
+                elif cur in bound:
+                    kwargs[orig] = bound[cur]
+                elif has_fallback(program, n, cur, orig, {}):
+                    d = next(p[1] for p in n["params"] if p[0] == orig)
+                    kwargs[orig] = copy.deepcopy(py_val(d["d"]))
+                else:
+                    unsat = True
+            if waiting:
+                continue
+            progress = True
+            if unsat:
+                dead.add(name)
+                continue
+            fn = make_function(n, f"{gi}:{name}", env, is_async=False)
+            try:
+                out = fn(**kwargs)
+            except Exception as e:  # noqa: BLE001
+                res.error = e
+                res.failed_node = name
+                break
+            res.calls.append((f"{gi}:{name}", dict(kwargs)))
+            done.add(name)
+            res.ran.append(name)
+            if n["kind"] == "ifelse":
+                decisions[name] = py_dec(n["targets"][0] if out else n["targets"][1])
+            elif n["kind"] == "route":
+                d = out
+                if d is None and n.get("fallback") is not None:
+                    d = py_dec(n["fallback"])
+                decisions[name] = d
+            else:
+                douts = n.get("dataOuts", [])
+                if len(douts) == 1:
+                    state[douts[0]] = out
+                elif len(douts) > 1:
+                    state.update(zip(douts, out, strict=True))
+    res.values = {k: v for k, v in state.items() if k in producers}
+    res.decisions = decisions  # type: ignore[attr-defined]
+    return res
